@@ -59,6 +59,10 @@ class ChainHist(Engine):
             party = rng.randrange(nparties)
             if mode == 'single' and r < 0.18:
                 a = {'op': 'select', 'chain': rng.choice(list(RC.CHAINS) + ['mainnet', 'bogus', 'Mainnet', '', 'testnet3'])}
+                if r < 0.06:
+                    # (added after round u) the selection is made by ANOTHER caller thread, started and joined on the spot -
+                    # a deterministic hand-off: the selection is process-wide, so the main thread's next conversion is under it
+                    a['via'] = 'thread'
             elif r < 0.35:
                 k = rng.choice(KINDS)
                 a = {'op': 'roundtrip', 'kind': k, 'payload': self.gen_payload(rng, k)}
@@ -211,7 +215,23 @@ class ChainHist(Engine):
         if op == 'select':
             name = a['chain']
             try:
-                B.SelectParams(name)
+                if a.get('via') == 'thread':
+                    import threading
+                    box = []
+
+                    def _sel():
+                        try:
+                            B.SelectParams(name)
+                        except BaseException as e_:
+                            box.append(e_)
+                    th = threading.Thread(target=_sel, name='vf-select')
+                    th.start()
+                    th.join()
+                    ctx.probe('select-by-other-thread')
+                    if box:
+                        raise box[0]
+                else:
+                    B.SelectParams(name)
                 ok = True
             except ValueError:
                 ok = False
